@@ -69,7 +69,8 @@ def run(tier):
     bad_traces = []
     for fl, two, tpath, depth in walks:
         out = os.path.join(c.scratch, "walk_%s%d.ndjson" % (fl, two))
-        stats, r = c.run_driver(exe, ["walk", tpath, fl, depth, 1 if two == 2 else 0, out], timeout=3000, check=False)
+        cover = (1 if (two == 1 and fl == "set") else 0) if quick else ((2 if fl == "set" else 1) if two == 1 else 1)
+        stats, r = c.run_driver(exe, ["walk", tpath, fl, depth, 1 if two == 2 else 0, out, cover], timeout=3000, check=False)
         if r.returncode != 0:
             with open(out, "a") as f:
                 f.write(json.dumps({"e": "Crash", "rc": r.returncode, "mode": "walk %s%d" % (fl, two),
@@ -98,7 +99,9 @@ def run(tier):
     bads = c.validate("Lru", "Trace_Lru", traces + bad_traces, timeout=1200)
     c.judge(bads)
     c.rule = ("table walk: every operation path up to depth D of the bounded TLA+ model replayed into the real "
-              "container (ASan); random histories of 5..400 calls over 1..8 keys incl. swap; distinct = "
+              "container (ASan), then every model state (pair of states for two instances) reached along a shortest path "
+              "and every operation applied there followed by every suffix of <= 1-2 operations (transition coverage at any "
+              "depth); random histories of 5..400 calls over 1..8 keys incl. swap; distinct = "
               "(operation, container occupancy class, result class) combinations seen in random histories")
     c.exhaustive = True
     c.assumptions = ["projection reads head/tail/prev/next through a derived class",
